@@ -308,3 +308,114 @@ Example C06_example_bb_file_run :
   check (BedZoomFit.bb_write_either false exact ex_bw_opts ex_bb_sizes None ex_bb_input) /\
   check (BedZoomFit.bb_write_either true ieee ex_bw_opts ex_bb_sizes None ex_bb_input).
 Proof. vm_compute. repeat split. Qed.
+
+(* ================= IEEE = exact on a checkable domain (Proofs/FloatExact.v) =================
+   The theorems above about sums are stated for the non-rounding mode; the implementation computes in
+   binary64.  (a) an IEEE operation whose exact result is representable returns that number; (b) integer
+   multiples of 2^G ("grid", [gval E G x k]: x denotes k * 2^G) are closed under + and * with exact IEEE
+   results while |k| < 2^53; (c) hence the accumulation folds  acc + len*val  and  acc + (len*val)*val
+   computed in IEEE mode denote the same numbers as in exact mode; (d) the bigWig total summary of the IEEE
+   writer model IS the statistics of the input on that domain.  [in_exact_domain] is the decidable domain
+   the generators use (multiples of 1/8, |v| <= 1024, fewer than 2^24 bases). *)
+From BT Require Proofs.FloatExact.
+
+Theorem C06_fadd_ieee_exact : forall x y, C06FileFloat.rep64 (fadd64 exact x y) ->
+  C06FileFloat.same_num (fadd64 ieee x y) (fadd64 exact x y).
+Proof. exact FloatExact.fadd_ieee_exact. Qed.
+Print Assumptions C06_fadd_ieee_exact.
+
+Theorem C06_fmul_ieee_exact : forall x y, C06FileFloat.rep64 (fmul64 exact x y) ->
+  C06FileFloat.same_num (fmul64 ieee x y) (fmul64 exact x y).
+Proof. exact FloatExact.fmul_ieee_exact. Qed.
+Print Assumptions C06_fmul_ieee_exact.
+
+(* `x as f32` of a number that is a binary32 value (24 significant bits, exponent >= -149) *)
+Theorem C06_to_f32_ieee_exact : forall x, FloatExact.rep32 x ->
+  C06FileFloat.same_num (to_f32 ieee x) x /\ to_f32 exact x = x.
+Proof. exact FloatExact.to_f32_ieee_exact. Qed.
+Print Assumptions C06_to_f32_ieee_exact.
+
+(* closure of the grid: [grid E G B x] = x is an integer multiple of 2^G, at most B * 2^G in absolute value *)
+Theorem C06_grid_fadd_ieee : forall E G B1 B2 x y, (E <= 0 -> E <= G -> -1074 <= G <= 971 -> B1 + B2 < FloatExact.P53 ->
+  FloatExact.grid E G B1 x -> FloatExact.grid E G B2 y ->
+  FloatExact.grid E G (B1 + B2) (fadd64 ieee x y) /\ FloatExact.grid E G (B1 + B2) (fadd64 exact x y) /\
+  C06FileFloat.same_num (fadd64 ieee x y) (fadd64 exact x y))%Z.
+Proof. exact FloatExact.grid_fadd_ieee. Qed.
+Print Assumptions C06_grid_fadd_ieee.
+
+Theorem C06_grid_fmul_ieee : forall E1 G1 E2 G2 B1 B2 x y,
+  (E1 <= G1 -> E2 <= G2 -> E1 + E2 <= 0 -> -1074 <= G1 + G2 <= 971 -> 0 <= B1 -> B1 * B2 < FloatExact.P53 ->
+  FloatExact.grid E1 G1 B1 x -> FloatExact.grid E2 G2 B2 y ->
+  FloatExact.grid (E1 + E2) (G1 + G2) (B1 * B2) (fmul64 ieee x y) /\
+  FloatExact.grid (E1 + E2) (G1 + G2) (B1 * B2) (fmul64 exact x y) /\
+  C06FileFloat.same_num (fmul64 ieee x y) (fmul64 exact x y))%Z.
+Proof. exact FloatExact.grid_fmul_ieee. Qed.
+Print Assumptions C06_grid_fmul_ieee.
+
+(* the fold lemma, any element type: lengths [len t], values [val t] on the grid, bound in grid units *)
+Theorem C06_fold_sum_ieee_exact : forall (T : Type) (len : T -> N) (val : T -> fl) E G l, FloatExact.grid_ok_sum E G ->
+  Forall (fun t => FloatExact.on_grid E G (val t)) l ->
+  (FloatExact.kabs len (fun t => FloatExact.gk E G (val t)) l < FloatExact.P53)%Z ->
+  let k := FloatExact.ksum len (fun t => FloatExact.gk E G (val t)) l in
+  FloatExact.gval E G (fold_left (FloatExact.step_sum len val ieee) l fzero) k /\
+  FloatExact.gval E G (fold_left (FloatExact.step_sum len val exact) l fzero) k /\
+  C06FileFloat.same_num (fold_left (FloatExact.step_sum len val ieee) l fzero) (fold_left (FloatExact.step_sum len val exact) l fzero).
+Proof. exact @FloatExact.fold_sum_ieee_exact. Qed.
+Print Assumptions C06_fold_sum_ieee_exact.
+
+Theorem C06_fold_sq_ieee_exact : forall (T : Type) (len : T -> N) (val : T -> fl) E G l, FloatExact.grid_ok E G ->
+  Forall (fun t => FloatExact.on_grid E G (val t)) l ->
+  (FloatExact.ksq len (fun t => FloatExact.gk E G (val t)) l < FloatExact.P53)%Z ->
+  let k := FloatExact.ksq len (fun t => FloatExact.gk E G (val t)) l in
+  FloatExact.gval (E + E) (G + G) (fold_left (FloatExact.step_sq len val ieee) l fzero) k /\
+  FloatExact.gval (E + E) (G + G) (fold_left (FloatExact.step_sq len val exact) l fzero) k /\
+  C06FileFloat.same_num (fold_left (FloatExact.step_sq len val ieee) l fzero) (fold_left (FloatExact.step_sq len val exact) l fzero).
+Proof. exact @FloatExact.fold_sq_ieee_exact. Qed.
+Print Assumptions C06_fold_sq_ieee_exact.
+
+(* the decidable generator domain implies the hypotheses of the fold theorems (E = -149, G = -3) *)
+Theorem C06_in_exact_domain_hyps : forall vs, FloatExact.in_exact_domain vs = true ->
+  FloatExact.grid_ok FloatExact.dom_E FloatExact.dom_G /\ Forall (FloatExact.vgrid FloatExact.dom_E FloatExact.dom_G) vs /\
+  (FloatExact.gabs FloatExact.dom_E FloatExact.dom_G vs < FloatExact.P53)%Z /\
+  (FloatExact.gsq FloatExact.dom_E FloatExact.dom_G vs < FloatExact.P53)%Z.
+Proof. exact FloatExact.in_exact_domain_hyps. Qed.
+Print Assumptions C06_in_exact_domain_hyps.
+
+(* C06_bw_summary for the IEEE instance (the one compared bit for bit with the implementation): values on
+   the grid 2^G, sum of len*|val| and of len*val^2 below 2^53 grid units: the summary bw_collect hands to
+   the writer denotes exactly the statistics of the input, and field by field the numbers of the exact run *)
+Theorem C06_bw_summary_ieee_exact_on_grid : forall E G o sizes input ids outs sum data, FloatExact.grid_ok E G ->
+  let all := map snd input in
+  Forall (FloatExact.vgrid E G) all -> (FloatExact.gabs E G all < FloatExact.P53)%Z -> (FloatExact.gsq E G all < FloatExact.P53)%Z ->
+  bw_collect ieee o sizes input = Ok (ids, outs, sum, data) ->
+  wform E sum (Nlen all) (w_bases all) (w_sum E all) (w_sumsq E all)
+        (w_min E all (fval E f64_max)) (w_max E all (fval E f64_min)) /\
+  exists sum_e, bw_collect exact o sizes input = Ok (ids, outs, sum_e, data) /\
+    su_items sum = su_items sum_e /\ su_bases sum = su_bases sum_e /\ su_min sum = su_min sum_e /\ su_max sum = su_max sum_e /\
+    C06FileFloat.same_num (su_sum sum) (su_sum sum_e) /\ C06FileFloat.same_num (su_sumsq sum) (su_sumsq sum_e).
+Proof. exact FloatExact.bw_collect_ieee_wform. Qed.
+Print Assumptions C06_bw_summary_ieee_exact_on_grid.
+
+Theorem C06_bw_summary_ieee_in_domain : forall o sizes input ids outs sum data,
+  let all := map snd input in
+  FloatExact.in_exact_domain all = true ->
+  bw_collect ieee o sizes input = Ok (ids, outs, sum, data) ->
+  wform FloatExact.dom_E sum (Nlen all) (w_bases all) (w_sum FloatExact.dom_E all) (w_sumsq FloatExact.dom_E all)
+        (w_min FloatExact.dom_E all (fval FloatExact.dom_E f64_max)) (w_max FloatExact.dom_E all (fval FloatExact.dom_E f64_min)) /\
+  exists sum_e, bw_collect exact o sizes input = Ok (ids, outs, sum_e, data) /\
+    su_items sum = su_items sum_e /\ su_bases sum = su_bases sum_e /\ su_min sum = su_min sum_e /\ su_max sum = su_max sum_e /\
+    C06FileFloat.same_num (su_sum sum) (su_sum sum_e) /\ C06FileFloat.same_num (su_sumsq sum) (su_sumsq sum_e).
+Proof. exact FloatExact.bw_collect_ieee_in_domain. Qed.
+Print Assumptions C06_bw_summary_ieee_in_domain.
+
+(* non-vacuity: the input of C06_example_bw_hyps (1.0, 0.5, -2.5 over two chromosomes) is in the domain; the
+   IEEE run returns, and its sum is 7 = 56/8, its sum of squares 23.5 = 1504/64 *)
+Example C06_example_bw_ieee_domain :
+  FloatExact.in_exact_domain (map snd ex_bw_input) = true /\
+  exists ids outs sum data,
+    bw_collect ieee ex_bw_opts [([99; 104; 114; 49], 20); ([99; 104; 114; 50], 20)] ex_bw_input = Ok (ids, outs, sum, data) /\
+    FloatExact.gk FloatExact.dom_E FloatExact.dom_G (su_sum sum) = 56%Z /\
+    FloatExact.gk (FloatExact.dom_E + FloatExact.dom_E) (FloatExact.dom_G + FloatExact.dom_G) (su_sumsq sum) = 1504%Z.
+Proof.
+  split; [vm_compute; reflexivity|]. do 4 eexists. split; [vm_compute; reflexivity|]. split; vm_compute; reflexivity.
+Qed.
